@@ -194,6 +194,24 @@ Theorem C04_builtin_sinks : forall fail_at openable pl sh st o1 c1 o2 c2,
    res_sinks r = map (fun is_out : bool => Some (if is_out then fst sk else snd sk)) (s_prints st)) /\
   (res_error r = true <-> allopen openable (s_redirs st) = false).
 Proof. intros. eapply (builtin_sinks_fold v0); eauto. Qed.
+(* the probe step of the lone-builtin branch (core.rs, d4ac685): before the builtin runs, every file target of the list is
+   opened in order with ITS OWN mode -- `>` truncating, `>>` appending -- up to and including the first that cannot be opened.
+   So `builtin > a > /nonexistent/x > c` truncates a (and leaves c alone), and a builtin that prints nothing still
+   creates / empties its `>` targets: "> creates or truncates ... for builtins as well", left to right. *)
+Theorem C04_builtin_probe : forall openable rs p,
+  ev_opens (tr (fst (builtin_preopen openable rs p))) = ev_opens (tr p) ++ fst (posix_opens openable rs) /\
+  snd (builtin_preopen openable rs p) = snd (posix_opens openable rs).
+Proof. exact preopen_opens. Qed.
+(* the whole lone-builtin run on the two shapes: `b > f5 > (unopenable 9) > f6` and a silent `b > f5 >> f6` *)
+Example C04_builtin_probe_instances :
+  ev_opens (tr (res_shell (run_pipeline v0 nf (fun p => negb (Nat.eqb p 9))
+     (mkplan [mks FNone [mkr F1 false (TFile 5); mkr F1 false (TFile 9); mkr F1 false (TFile 6)] KBuiltin [true]] false) sh0)))
+  = [(5, MTrunc); (9, MTrunc)] /\
+  ev_opens (tr (res_shell (run_pipeline v0 nf yes
+     (mkplan [mks FNone [mkr F1 false (TFile 5); mkr F1 true (TFile 6)] KBuiltin []] false) sh0)))
+  = [(5, MTrunc); (6, MAppend)].
+Proof. vm_compute. split; reflexivity. Qed.
+
 (* regression: the recursive look-ahead version before c05c052 *)
 Definition v_before_c05c052 := mkv true true true true true false false.
 Example C04_builtin_regression :
@@ -282,5 +300,6 @@ Print Assumptions C04_sinks.
 Print Assumptions C04_unopenable.
 Print Assumptions C04_builtin_child.
 Print Assumptions C04_builtin_sinks.
+Print Assumptions C04_builtin_probe.
 Print Assumptions C04_shell_unaffected.
 Print Assumptions C04_holds.
